@@ -607,6 +607,20 @@ impl<T: Config> UdpProtocol<T> {
             return;
         }
 
+        // until the handshake has told us who the remote is, we only take part in the handshake:
+        // anything else could come from a different session talking to the same address
+        let is_handshake = matches!(
+            msg.body,
+            MessageBody::SyncRequest(_) | MessageBody::SyncReply(_)
+        );
+        if !is_handshake
+            && (self.state == ProtocolState::Initializing
+                || self.state == ProtocolState::Synchronizing)
+        {
+            trace!("Received non-handshake message before being synchronized; ignoring");
+            return;
+        }
+
         // update time when we last received packages
         self.last_recv_time = Instant::now();
 
